@@ -44,8 +44,11 @@ func getSwapInSenderStates() States {
 			Action: &SendMessageAction{},
 			Events: Events{
 				Event_ActionSucceeded: State_SwapInSender_AwaitAgreement,
-				Event_ActionFailed:    State_SwapCanceled,
+				// The request may already be with the peer: tell it.
+				Event_ActionFailed: State_SendCancel,
 			},
+			// The negotiation timeout does not survive a restart.
+			FailOnrecover: true,
 		},
 		State_SwapInSender_AwaitAgreement: {
 			Action: &NoOpAction{},
